@@ -52,6 +52,9 @@ CHECKS = {
     "C16": dict(tech="TLC model checking of the lock-step builder model (MC_Builder) + replay of every generated call sequence on the real Prover and Verifier",
                 text="All call sequences up to the bound are enumerated by TLC (mirror/pending/error invariants) and each is replayed on the real code comparing handles, error kinds and gate counts call by call in both phases.",
                 note="bounded call depth (6-8 for invariants, 4-5 for replay); second-phase calls placed in the first callback", ref="5 C16"),
+    "C18": dict(tech="fixtures recorded from the reference revision re-verified by the current code (verify-only) + pinned generator digests + TLC trace validation of the reference revision's recorded traces and of fresh traces against the same specification (transcript equality)",
+                text="Recorded proofs for their statements and recorded wrong statements must get the recorded verdicts, recorded bytes must re-encode and token sizes persist, generators and bases must match pinned digests; the recorded traces of the reference revision validate against the specification, which makes the specification that revision's wire contract, and fresh traces of the current tree must satisfy the same contract with equal transcript operations.",
+                note="fixtures/wire/*.ndjson, fixtures/gens_digests.json: recorded once, never regenerated", ref="5 C18"),
 }
 
 NOT_APPLICABLE = {
